@@ -8,7 +8,7 @@ use ark_ec::{AffineRepr, CurveGroup, VariableBaseMSM};
 use ark_ff::PrimeField;
 use ark_poly::MultilinearExtension;
 use ark_serialize::serialize_to_vec;
-use ark_std::{marker::PhantomData, rand::RngCore, string::ToString, vec::Vec, UniformRand};
+use ark_std::{format, marker::PhantomData, rand::RngCore, string::ToString, vec::Vec, UniformRand};
 
 use blake2::Blake2s256;
 use digest::Digest;
@@ -401,6 +401,7 @@ where
                 z,
                 z_d,
                 z_b,
+                r_eval,
             });
         }
 
@@ -421,7 +422,7 @@ where
         vk: &Self::VerifierKey,
         commitments: impl IntoIterator<Item = &'a LabeledCommitment<Self::Commitment>>,
         point: &'a P::Point,
-        _values: impl IntoIterator<Item = G::ScalarField>,
+        values: impl IntoIterator<Item = G::ScalarField>,
         proof: &Self::Proof,
         sponge: &mut impl CryptographicSponge,
         _rng: Option<&mut dyn RngCore>,
@@ -449,7 +450,20 @@ where
         let l = tensor_prime(point_lower);
         let r = tensor_prime(point_upper);
 
-        for (com, h_proof) in commitments.into_iter().zip(proof.iter()) {
+        let commitments: Vec<_> = commitments.into_iter().collect();
+        let values: Vec<_> = values.into_iter().collect();
+
+        // One proof and one claimed value per commitment
+        if proof.len() != commitments.len() || values.len() != commitments.len() {
+            return Err(Error::IncorrectInputLength(format!(
+                "Expected one proof and one value for each of the {} commitments. Instead, got {} proofs and {} values",
+                commitments.len(),
+                proof.len(),
+                values.len()
+            )));
+        }
+
+        for ((com, h_proof), value) in commitments.into_iter().zip(proof.iter()).zip(values) {
             let row_coms = &com.commitment().row_coms;
 
             // extract each field from h_proof
@@ -460,6 +474,7 @@ where
                 z,
                 z_d,
                 z_b,
+                r_eval,
             } = h_proof;
 
             if row_coms.len() != 1 << n / 2 {
@@ -488,6 +503,11 @@ where
             // Receive the random challenge c from the verifier, i.e. squeeze
             // it from the transcript.
             let c: G::ScalarField = sponge.squeeze_field_elements(1)[0];
+
+            // The commitment to the evaluation must open to the claimed value
+            if *com_eval != (vk.com_key[0] * value + vk.h * r_eval).into() {
+                return Ok(false);
+            }
 
             // Second check from the paper (figure 6, equation (14))
             // Moved here for potential early return
